@@ -61,7 +61,7 @@ func (p *planter) secretObj(kind string) int {
 	return 0
 }
 
-func flate(rng *rand.Rand, pol pdfgen.FilterPolicy) []pdfgen.FilterSpec {
+func pickFilters(rng *rand.Rand, pol pdfgen.FilterPolicy) []pdfgen.FilterSpec {
 	if pol == pdfgen.FiltersNone {
 		return nil
 	}
@@ -156,7 +156,7 @@ func plantExtras(doc *pdfgen.Doc, truth *pdfgen.Truth, rng *rand.Rand, pol pdfge
 				if r, ok := dr.(pdfgen.Ref); ok {
 					ref := doc.Alloc()
 					data := []byte("%!FontType1C-fake\n" + p.marker(kindFontStream, ref.Num) + "\n")
-					doc.Put(ref, &pdfgen.Stream{Dict: pdfgen.D("Subtype", pdfgen.Name("Type1C")), Data: data, Filters: flate(rng, pol)})
+					doc.Put(ref, &pdfgen.Stream{Dict: pdfgen.D("Subtype", pdfgen.Name("Type1C")), Data: data, Filters: pickFilters(rng, pol)})
 					doc.SetKey(r.Num, "FontFile3", ref)
 				}
 			}
@@ -167,25 +167,35 @@ func plantExtras(doc *pdfgen.Doc, truth *pdfgen.Truth, rng *rand.Rand, pol pdfge
 		ref := doc.Alloc()
 		m := p.marker(kindImageStream, ref.Num)
 		doc.Put(ref, &pdfgen.Stream{Dict: pdfgen.D("Type", pdfgen.Name("XObject"), "Subtype", pdfgen.Name("Image"), "Width", len(m), "Height", 1,
-			"ColorSpace", pdfgen.Name("DeviceGray"), "BitsPerComponent", 8), Data: []byte(m), Filters: flate(rng, pol)})
+			"ColorSpace", pdfgen.Name("DeviceGray"), "BitsPerComponent", 8), Data: []byte(m), Filters: pickFilters(rng, pol)})
 		doc.SetKey(truth.Objs.PageObjs[0], "Thumb", ref)
 	}
-	// application-private data: a stream, an indirect string object, an indirect array object
+	// application-private data: nested arrays/dictionaries, a stream, an indirect string object, an indirect
+	// array object, a plain dictionary object (object-stream member). pdfcpu's optimizer deletes the catalog's
+	// /PieceInfo, so the same holder also hangs off a private key of the secret annotation (annotation
+	// dictionaries are written with all their entries).
 	{
-		sref, strRef, arrRef, holder := doc.Alloc(), doc.Alloc(), doc.Alloc(), doc.Alloc()
+		sref, strRef, arrRef, memRef, holder := doc.Alloc(), doc.Alloc(), doc.Alloc(), doc.Alloc(), doc.Alloc()
 		doc.Put(sref, &pdfgen.Stream{Dict: pdfgen.D("VerifNote", S(p.marker(kindStreamDictS, sref.Num))),
-			Data: []byte("private bytes " + p.marker(kindPrivStream, sref.Num) + " end"), Filters: flate(rng, pol)})
+			Data: []byte("private bytes " + p.marker(kindPrivStream, sref.Num) + " end"), Filters: pickFilters(rng, pol)})
 		doc.Put(strRef, S(p.marker(kindStringObj, strRef.Num)))
 		doc.Put(arrRef, pdfgen.Array{S(p.marker(kindArrayObj, arrRef.Num)), pdfgen.Int(7), pdfgen.Array{pdfgen.HexString(p.marker(kindArrayObj, arrRef.Num))}})
-		doc.Put(holder, pdfgen.D("LastModified", S("D:20240102030405+00'00'"), "Private", pdfgen.D("Stm", sref, "Str", strRef, "Arr", arrRef)))
+		doc.Put(memRef, pdfgen.D("Kind", pdfgen.Name("Member"), "Text", S(p.marker(pdfgen.SecretObjStmMember, memRef.Num))))
+		deep := pdfgen.Array{
+			pdfgen.Array{S(p.marker(pdfgen.SecretNested, holder.Num)), pdfgen.Array{pdfgen.Array{pdfgen.HexString(p.marker(pdfgen.SecretNested, holder.Num))}}},
+			pdfgen.D("K", S(p.marker(pdfgen.SecretNested, holder.Num)), "A", pdfgen.Array{pdfgen.Int(1), pdfgen.D("Z", S(p.marker(pdfgen.SecretNested, holder.Num)))}),
+		}
+		doc.Put(holder, pdfgen.D("LastModified", S("D:20240102030405+00'00'"), "Private", pdfgen.D("Stm", sref, "Str", strRef, "Arr", arrRef, "Mem", memRef, "Deep", deep)))
 		pi := pdfgen.Dict{}
 		if o, ok := catDict.Get("PieceInfo"); ok {
 			if d, ok := o.(pdfgen.Dict); ok {
 				pi = d
 			}
 		}
-		catDict, _ = doc.GetDict(cat)
 		doc.SetKey(cat, "PieceInfo", pi.With("VERIF3", holder))
+		if n := p.secretObj(pdfgen.SecretAnnot); n != 0 {
+			doc.SetKey(n, "VerifPrivate", holder)
+		}
 	}
 	// info dictionary: UTF-16BE text string and a hex string
 	if n := truth.Objs.Info; n != 0 {
@@ -241,11 +251,14 @@ func plantUpdate(doc *pdfgen.Doc, truth *pdfgen.Truth, rng *rand.Rand, pol pdfge
 		}
 	}
 	doc.SetKey(cat, "PieceInfo", pi.With("VERIF4", victim))
+	if n := p.secretObj(pdfgen.SecretAnnot); n != 0 {
+		doc.SetKey(n, "VerifUpd", victim)
+	}
 	// the update
 	doc.AppendUpdate(nil)
 	nref, sref := doc.Alloc(), doc.Alloc()
 	doc.Put(nref, pdfgen.D("Note", S(p.marker(kindUpdNew, nref.Num)), "List", pdfgen.Array{S(p.marker(kindUpdNew, nref.Num))}))
-	doc.Put(sref, &pdfgen.Stream{Dict: pdfgen.Dict{}, Data: []byte("update stream " + p.marker(kindUpdStream, sref.Num)), Filters: flate(rng, pol)})
+	doc.Put(sref, &pdfgen.Stream{Dict: pdfgen.Dict{}, Data: []byte("update stream " + p.marker(kindUpdStream, sref.Num)), Filters: pickFilters(rng, pol)})
 	doc.Put(victim, pdfgen.D("LastModified", S("D:20240203040506+00'00'"), "Private", pdfgen.D("New", nref, "Stm", sref, "Text", S(p.marker(kindUpdNew, victim.Num)))))
 	if n := truth.Objs.Info; n != 0 && rng.IntN(2) == 0 {
 		if d, ok := doc.GetDict(n); ok {
